@@ -130,6 +130,10 @@ fn new_env(vars: BTreeMap<Rc<str>, Rc<str>>) -> RefCell<Environment<Vec<u8>, Vec
     RefCell::new(Environment::new_with_vars(Vec::new(), Vec::new(), vars))
 }
 
+thread_local! {
+    static SHARED_ENV: RefCell<Environment<Vec<u8>, Vec<u8>>> = new_env(BTreeMap::new());
+}
+
 fn run_case(mode: &str, input: &J) -> J {
     match mode {
         // expression text -> AST shape of `let x = <text>;`
@@ -239,8 +243,28 @@ fn run_case(mode: &str, input: &J) -> J {
                     vars.insert(k.as_str().into(), v.as_str().unwrap_or("").into());
                 }
             }
-            let env = new_env(vars);
             let paths: Vec<PathBuf> = Vec::new();
+            if vars.is_empty() {
+                // building an Environment translates the whole embedded std library (~0.2 s): share one per
+                // process for programs that cannot observe it, resetting every piece of mutable state
+                return SHARED_ENV.with(|env| {
+                    {
+                        let mut e = env.borrow_mut();
+                        e.out_lock.clear();
+                        e.val_cache.clear();
+                        e.assert_results = ucglib::build::AssertCollector::new();
+                        e.stdout.clear();
+                        e.stderr.clear();
+                    }
+                    let mut b = FileBuilder::new(PathBuf::from("/nonexistent-wd"), &paths, env);
+                    b.set_strict(strict);
+                    match b.eval_string(src) {
+                        Ok(v) => json!({"ok": json_of_val(&v)}),
+                        Err(e) => json!({"err": format!("{}", e)}),
+                    }
+                });
+            }
+            let env = new_env(vars);
             let mut b = FileBuilder::new(PathBuf::from("/nonexistent-wd"), &paths, &env);
             b.set_strict(strict);
             match b.eval_string(src) {
@@ -266,6 +290,79 @@ fn run_case(mode: &str, input: &J) -> J {
                 }
                 Err(e) => json!({"err": format!("{}", e)}),
             }
+        }
+        // text -> outcome of every stage, each under its own catch_unwind
+        "stages" => {
+            let src = input.as_str().unwrap_or("").to_string();
+            fn stage<F: FnOnce() -> std::result::Result<String, String> + std::panic::UnwindSafe>(f: F) -> J {
+                match catch_unwind(f) {
+                    Ok(Ok(s)) => json!({"ok": s}),
+                    Ok(Err(e)) => json!({"err": e}),
+                    Err(p) => {
+                        let msg = if let Some(s) = p.downcast_ref::<&str>() { s.to_string() }
+                                  else if let Some(s) = p.downcast_ref::<String>() { s.clone() } else { "?".to_string() };
+                        json!({"panic": msg})
+                    }
+                }
+            }
+            let s1 = src.clone();
+            let tokens = stage(move || tokenize(OffsetStrIter::new(&s1), None).map(|t| t.len().to_string()).map_err(|e| format!("{}", e)));
+            let s2 = src.clone();
+            let parsed = stage(move || parse_text(&s2).map(|st| st.len().to_string()));
+            let s3 = src.clone();
+            let checked = stage(move || {
+                use ucglib::ast::walk::Walker;
+                let mut stmts = parse_text(&s3)?;
+                let mut checker = ucglib::ast::typecheck::Checker::new();
+                checker.walk_statement_list(stmts.iter_mut().collect());
+                checker.result().map(|m| m.len().to_string()).map_err(|e| format!("{}", e))
+            });
+            let s4 = src.clone();
+            let translated = stage(move || {
+                let stmts = parse_text(&s4)?;
+                let ops = ucglib::build::opcode::translate::AST::translate(stmts, &PathBuf::from("/nonexistent-wd"));
+                Ok(ops.ops.len().to_string())
+            });
+            let s5 = src.clone();
+            let evaled = stage(AssertUnwindSafe(move || {
+                let paths: Vec<PathBuf> = Vec::new();
+                let v = SHARED_ENV.with(|env| {
+                    // a panic in an earlier case may have left the RefCell borrowed: replace the environment then
+                    if env.try_borrow_mut().is_err() {
+                        return Err("shared environment poisoned".to_string());
+                    }
+                    {
+                        let mut e = env.borrow_mut();
+                        e.out_lock.clear();
+                        e.val_cache.clear();
+                        e.assert_results = ucglib::build::AssertCollector::new();
+                        e.stdout.clear();
+                        e.stderr.clear();
+                    }
+                    let mut b = FileBuilder::new(PathBuf::from("/nonexistent-wd"), &paths, env);
+                    b.set_strict(true);
+                    b.eval_string(&s5).map_err(|e| format!("{}", e))
+                })?;
+                // every converter on the result
+                let reg = ConverterRegistry::make_registry();
+                let mut names: Vec<String> = reg.get_converter_list().iter().map(|(k, _)| (*k).clone()).collect();
+                names.sort();
+                for n in names {
+                    let mut buf: Vec<u8> = Vec::new();
+                    let _ = reg.get_converter(&n).unwrap().convert(v.clone(), &mut buf);
+                }
+                Ok("built".to_string())
+            }));
+            let s6 = src.clone();
+            let formatted = stage(move || {
+                let mut cm = CommentMap::new();
+                let stmts = parse(OffsetStrIter::new(&s6), Some(&mut cm)).map_err(|e| format!("{}", e))?;
+                let mut buf: Vec<u8> = Vec::new();
+                let mut p = AstPrinter::new(2, &mut buf).with_comment_map(&cm);
+                p.render(&stmts).map_err(|e| format!("io {}", e))?;
+                Ok("formatted".to_string())
+            });
+            json!({"tokenize": tokens, "parse": parsed, "check": checked, "translate": translated, "eval": evaled, "fmt": formatted})
         }
         // path text -> normalized
         "normalize" => {
